@@ -1,5 +1,48 @@
-"""C14 configuration: weeks of a month (civil half; lunar half modelled generically, correspondence pending)."""
+"""C14 configuration: weeks of a month (civil half: SolarWeek; lunar half: LunarWeek over the extracted month table)."""
+import os
+import sys
 from props_common import *
+
+sys.path.insert(0, os.path.join(os.path.dirname(os.path.abspath(__file__)), "tools"))
+from gen_eph import gen_eph
+
+
+def rand_lmonth(rng):
+    """a lunar (year, signed month): uniform years, early years, known leap months, the D4 junction years"""
+    k = rng.random()
+    if k < 0.12:
+        y, m = rng.choice([(2020, -4), (2023, -2), (2025, -6), (2033, -11), (1984, -10), (2017, -6), (2012, -4), (1651, -1)])
+        return y, m
+    if k < 0.20:
+        return rng.choice([0, 1, 8, 9, 23, 24, 25, 236, 239, 240, 9998, 9999]), rng.randint(1, 12)
+    y = rng.choice([rng.randint(0, 9999), rng.randint(0, 9999), rng.randint(0, 300), rng.randint(1900, 2100)])
+    m = rng.randint(1, 12)
+    if rng.random() < 0.06:
+        m = -m
+    return y, m
+
+
+def c14b_ops(rng, tier):
+    n = 3000 if tier == "quick" else 30000
+    L = []
+    steps = [0, 1, -1, 2, -2, 4, -4, 5, -5, 6, -6, 52, -52, 53, -53, 60, -60]
+    for _ in range(n):
+        k = rng.random()
+        y, m = rand_lmonth(rng)
+        s = rng.randint(0, 6)
+        i = rng.choice([0, 0, 1, 2, 3, 4, 4, 5])
+        if k < 0.40:
+            nn = rng.choice([rng.choice(steps), rng.randint(-60, 60), rng.randint(-60, 60), rng.randint(-300, 300)])
+            L.append("%s %d %d %d %d %d" % (rng.choice(["lweek.next", "lweek.nextfd", "lweek.nextfd"]), y, m, i, s, nn))
+        elif k < 0.52:
+            L.append("lweek.new %d %d %d %d" % (rng.choice([y, y, rng.randint(-2, 10001)]), rng.choice([m, m, rng.randint(-13, 13)]), rng.randint(-1, 8), rng.randint(-1, 8)))
+        elif k < 0.60:
+            L.append("lweek.count %d %d %d" % (rng.choice([y, y, rng.randint(-2, 10001)]), rng.choice([m, m, rng.randint(-13, 13)]), rng.choice([s, s, rng.randint(-1, 20)])))
+        elif k < 0.90:
+            L.append("%s %d %d %d %d" % (rng.choice(["lweek.first", "lweek.firstc", "lweek.days"]), y, m, i, s))
+        else:
+            L.append("lweek.weeks %d %d %d" % (y, m, rng.choice([s, s, s, rng.randint(-1, 8)])))
+    return L
 
 
 def c14_ops(rng, tier):
@@ -34,7 +77,7 @@ def c14_ops(rng, tier):
             # equality of the shared week of two adjacent months and of unrelated weeks
             y2, m2 = (y, m + 1) if m < 12 else (min(y + 1, 9999), 1)
             L.append("week.eq %d %d %d %d %d %d %d %d" % (y, m, rng.choice([3, 4, 5]), s, y2, m2, rng.choice([0, 0, 1]), s))
-    return L
+    return L + c14b_ops(rng, tier)
 
 
 PROP = {
@@ -43,7 +86,11 @@ PROP = {
     "thm_file": "Tyme/Thm/C14.lean",
     "lean_targets": ["Tyme.Thm.C14"],
     "audit_files": ["Tyme/Lemmas/Week.lean", "Tyme/Model/Week.lean", "Tyme/Spec/Week.lean",
-                    "Tyme/Lemmas/Jd.lean", "Tyme/Model/Jd.lean", "Tyme/Spec/Civil.lean"],
+                    "Tyme/Lemmas/Jd.lean", "Tyme/Model/Jd.lean", "Tyme/Spec/Civil.lean",
+                    "Tyme/Model/LunarWeek.lean", "Tyme/Lemmas/LunarWeek.lean", "Tyme/Model/Lunar.lean", "Tyme/Model/Eph.lean",
+                    "Tyme/Model/RealEph.lean", "Tyme/Lemmas/Lunar.lean", "Tyme/Lemmas/LunarWalk.lean", "Tyme/Thm/C02.lean",
+                    "Tyme/Facts/Months.lean", "Tyme/Facts/MonthsFact.lean", "Tyme/Basic/Packed.lean"],
+    "gen": [gen_eph],
     "streams": [
         # per (year, month, start): week count, acceptance mask of SolarWeek::new for index 0..7, get_weeks, and for
         # every week the day number of its first day and the offsets of its 7 listed days
@@ -58,6 +105,18 @@ PROP = {
         # thorough only: every week of the years 1, 2, 1581-1583, 9998, 9999 stepped by EVERY n in -60..60: day number of the
         # first day of the result (x = next refused, X = its first day is before 0001-01-01)
         {"name": "c14.edges", "tier": "thorough"},
+        # ---- lunar half (harness p14b.rs, driver P14b.lean) ----
+        # per (lunar year, month, start): week count, acceptance mask of LunarWeek::new for index 0..7, get_weeks; then per accepted
+        # week (year, month, start, index): first day as lunar date and as civil date, the 7 listed days as lunar dates
+        # (quick: lunar years 0..30, 230..245, every 50th, 1580..1584, 9997..9999; thorough: all 10,000 lunar years, the 7 listed
+        # days only for the even years and the years of the quick selection)
+        {"name": "c14b.weeks", "args_thorough": ["all"]},
+        # (year offset, month, index) of next(-1), next(1), next(-5), next(5) of every week of the quick selection of years (K only)
+        {"name": "c14b.step", "spec": False},
+        # next(n) for every n in -60..60: civil day number of the first day of the result.  From EVERY week of the years around
+        # the D4 junctions and the ends of the table, and from one sampled week (rotating start and index) of every 4th month of the selected
+        # years (thorough: every 8th month of all years)
+        {"name": "c14b.next", "args_thorough": ["all"]},
     ],
     "ops": c14_ops,
     "exhaustive": True,
@@ -67,11 +126,19 @@ PROP = {
             "c14.step = next(+-1), next(+-5) of every week; c14.edges (thorough only) = next(n) for every n in -60..60 from every week of the years 1, 2, 1581-1583, 9998, 9999. Each compared byte-for-byte model-vs-implementation (K) and, except "
             "c14.step, spec-vs-implementation (S; spec = maximal start-aligned 7-day blocks meeting the month, on ordinals). "
             "ops: seeded random + corpus requests (week.next / week.nextfd with |n| <= 60, long walks and walks leaving the range; "
-            "new/count/first/days/idx/of/weeks/eq with valid and invalid arguments). distinct_nontrivial = stream lines + distinct op lines.",
+            "new/count/first/days/idx/of/weeks/eq with valid and invalid arguments). "
+            "Lunar half: c14b.weeks = every lunar month of the selected lunar years (thorough: all of 0..9999) x 7 starts: week count, acceptance "
+            "of index 0..7, get_weeks, and per week the first day (lunar date and civil date) and the 7 listed days (thorough: day lists for the even years and the quick selection only); c14b.step = next(+-1), "
+            "next(+-5) of every week (K only); c14b.next = next(n), n in -60..60, from every week of the lunar years around the D4 junctions "
+            "and table ends and from sampled weeks elsewhere; S spec = maximal start-aligned 7-day blocks of day numbers meeting "
+            "[first, first+len) of the month table, lunar dates read off the table; lweek.* ops (new/count/first/firstc/days/next/nextfd/weeks). "
+            "distinct_nontrivial = stream lines + distinct op lines.",
     "assumptions": ASSUMPTIONS + [
         "week count `(x as f64 / 7.0).ceil()` modelled as integer ceiling (x <= 37: exact in f64; compared exhaustively)",
         "Week equality (`!=` on Week compares names) modelled as index inequality: the seven weekday names are pairwise distinct",
         "the harness is built against the scratch worktree of /repo with fixes/C14-week-oct1582.diff applied (get_solar_week position by day count); model and theorems describe the repaired behaviour",
-        "LunarWeek: same generic model (Tyme.Wk over MonthOps) and theorems (C14_gen_*) apply to any month sequence satisfying Wk.Laws; the lunar instance and its correspondence ops are not part of this check yet",
+        "LunarWeek: literal model Tyme.LWk (Model/LunarWeek.lean) over the extracted month table (realEph / fastEph, re-extracted from /repo on every run by tools/gen_eph.py); "
+        "theorems C14_lunar_real_* hold on the five tiling intervals of lunar years 1..7, 9..22, 25..235, 237..238, 240..9998 (the excluded years are the D4 junctions, listed as known findings)",
+        "get_first_day / get_days go through SolarDay::get_lunar_day (guess-and-walk): proved partially correct (what it returns is the right lunar day), its termination within the fuel is validated by the correspondence run only (as in C02)",
     ],
 }
